@@ -633,7 +633,7 @@ PROP = Property(
           "count path; distinct = label set."),
     strategy=strategy,
     run_case=run_case,
-    budgets={"quick": 12000, "thorough": 400000},
+    budgets={"quick": 12000, "thorough": 100000},
     assumptions=[
         "a chip's name file is always present; fan inputs are numeric when readable",
         "battery files contain integers; cpuinfo 'cpu MHz' equals scaling_cur_freq/1000 when both list every CPU",
